@@ -207,6 +207,15 @@ func (c c01) Execute(p *core.Plan) *core.Result {
 			}
 			continue
 		}
+		// the tokens the client still holds at the end of the run (live objects, not the copies
+		// that went over the wire) must still be its own and still verify
+		for i, t := range s.Tokens {
+			if msg := CheckTokenBinding(s, i, t, hostKeyID(w, s)); msg != "" {
+				res.Violate(fmt.Sprintf("C01/type%d/held-token-changed", s.Type), fmt.Sprintf("session %d token %d, re-checked at the end of the run: %s", s.ID, i, msg), -1)
+			} else if _, err := w.VerifyTokenBytes(s.Type, s.Iss, t.Marshal()); err != nil {
+				res.Violate(fmt.Sprintf("C01/type%d/held-token-changed", s.Type), fmt.Sprintf("session %d token %d no longer verifies at the end of the run: %v", s.ID, i, err), -1)
+			}
+		}
 		batch := "1"
 		if s.Type == 5 {
 			batch = lenClass(len(s.Nonces))
